@@ -14,7 +14,9 @@ def run(tier, seed):
     exe = dc.driver()
 
     # 1. the reference itself: invariants + action properties on every 2-call history over one-line files
-    mc, res = dc.tlc_histories(chk, "ResolvConf", "C39_mc", dc.rc_consts(2, maxlines=1, flags=(7, 1), nl=(1,)),
+    mcc = dc.rc_consts(2, maxlines=1, flags=(7,), nl=(1,), conf=range(1, 37, 2), host=range(1, 16, 2), opt=range(1, 34, 2)) if q else \
+        dc.rc_consts(2, maxlines=1, flags=(7, 1), nl=(1,))
+    mc, res = dc.tlc_histories(chk, "ResolvConf", "C39_mc", mcc,
                                invariants=INV[:2], properties=PROPS, coverage=True, workers=8, timeout=1200)
     chk.check_coverage(res, ["Conf", "ConfMissing", "Hosts", "HostsNull", "ClearHosts", "Opt"], "C39_mc")
 
